@@ -386,6 +386,8 @@ func init() {
 			getIndex(c)
 			registerAndCommit(c)
 			consumerGet(c)
+			getAsync(c)               // the answer a blocked Get receives is the waiter's single send (never a closed channel's zero value)
+			consumerCommitRollback(c) // committed offset and delta move together
 			out := c.sel(func(o *an.Oblig) bool {
 				if isUndecided(o) || o.Rule == "ANCHOR" {
 					return true
@@ -393,7 +395,7 @@ func init() {
 				if ruleIn(o, "G", "ESC") && subjHas(o, "Buffer.buffer", "Buffer.offset", "Buffer.consumers", "consumer.offset") {
 					return true
 				}
-				if ruleIn(o, "AT") && funcHas(o, "(*Buffer).Put", "(*Buffer).NewConsumer", "(*Buffer).commit", "(*Buffer).cleanupLogic", "(*Buffer).get", "(*consumer).Get") {
+				if ruleIn(o, "AT") && funcHas(o, "(*Buffer).Put", "(*Buffer).NewConsumer", "(*Buffer).commit", "(*Buffer).cleanupLogic", "(*Buffer).get", "(*consumer).Get", "(*consumer).Commit") {
 					return true
 				}
 				return false
